@@ -5,6 +5,7 @@
 //!  '1 h' call a by-reference method      '2 h' obtain an owned wrapped child (Node::child)      '3 h' obtain a borrowed wrapped child, use and release it
 //!  '4 h' consuming call returning a wrapped child (Node::into_child)     '5 h' consuming call returning a plain value (Node::fin)
 //!  '6 h' clone (Clone objects and groups with Clone enabled)             '7 h' drop
+//!  '15 -77' create a boxed Peek2 object around a ZERO-SIZED instance
 //!  '11 h' cast! the group to Clone (fails and destroys the group when Clone is not enabled)   '12 h' upcast a cast group back
 //! after the script every slot is dropped in order.
 //! output per op: [code ok new-slot] ; [context count above baseline ; live instances ; destructors that ran since the last op (ids)]
@@ -54,6 +55,19 @@ impl Node for Inst {
     fn fin(self) -> i64 { self.id + 300 }
 }
 impl RefNode for Inst { type R = Inst; fn child_ref(&self) -> &Inst { self.sub.as_ref().unwrap() } }
+
+/// a ZERO-SIZED instance: boxing it allocates nothing, but it still has a destructor that must run exactly once
+pub struct Zst;
+impl Zst { fn new() -> Self { LIVE.fetch_add(1, SeqCst); Zst } }
+impl Drop for Zst {
+    fn drop(&mut self) {
+        LIVE.fetch_sub(1, SeqCst);
+        DROPS.with(|d| d.borrow_mut().push(-77));
+        let p = CTX_PROBE.with(|c| c.get());
+        if !p.is_null() { let n = Arc::strong_count(unsafe { &*p }) as i64; let d = crate::alloc::domain(0); SEEN_AT_DROP.with(|v| v.borrow_mut().push(n)); crate::alloc::domain(d); }
+    }
+}
+impl Peek2 for Zst { fn peek2(&self) -> i64 { -77 } }
 
 pub struct InstNoClone(Inst);
 impl Peek2 for InstNoClone { fn peek2(&self) -> i64 { self.0.id } }
@@ -105,6 +119,7 @@ pub fn run(_params: &[i64], ops: &Rows, mon: &mut Mon) -> Rows {
         let mut res: Option<Option<H>> = None;
         match c {
             0 => res = Some(Some(H::Node(trait_obj!((Inst::new(op[1]), ctx()) as Node)))),
+            15 => res = Some(Some(H::Child(trait_obj!((Zst::new(), ctx()) as Peek2)))),
             8 => res = Some(Some(H::Cl(trait_obj!((Inst::new(op[1]), ctx()) as Clone)))),
             9 => res = Some(Some(H::RefN(trait_obj!((Inst::with_sub(op[1]), ctx()) as RefNode)))),
             10 => res = Some(Some(if op.get(2).copied().unwrap_or(0) & 1 == 1 { H::Grp(group_obj!((Inst::new(op[1]), ctx()) as LifeGrp)) } else { H::Grp(group_obj!((InstNoClone(Inst::new(op[1])), ctx()) as LifeGrp)) })),
